@@ -257,6 +257,10 @@ func runC04(c *Ctx, body json.RawMessage) *Verdict {
 		var srv pb.QueryServiceServer
 		if cs.Mode == "grpc" {
 			srv = verifcli.NewServer(idx)
+			if srv == nil {
+				openErr = fmt.Errorf("the service value of `updog server` could not be built the way the program builds it")
+				return
+			}
 		}
 		// requests are marshalled and unmarshalled before the tasks start (stub transport)
 		reqs := make([][]*pb.QueryRequest, len(cs.Tasks))
